@@ -22,7 +22,7 @@ cp "$DEL/${WHICH}_demo_test.go" "$PKGDIR/zz_seed_${WHICH}_demo_test.go"
 R="$OUT/confirm.txt"; : > "$R"
 DEMO_RUN="${SEED_RUN:-Mut}"
 echo "== demo on unmodified code" >> "$R"
-(cd "$PKGDIR" && go test -vet=off -count=1 -run "$DEMO_RUN" . ) >> "$R" 2>&1; rc_clean=$?
+(cd "$PKGDIR" && go test $SEED_TESTFLAGS -vet=off -count=1 -run "$DEMO_RUN" . ) >> "$R" 2>&1; rc_clean=$?
 echo "rc=$rc_clean" >> "$R"
 echo "== apply + build" >> "$R"
 git -C "$D" apply "$DEL/${WHICH}.patch.diff" >> "$R" 2>&1; rc_apply=$?
@@ -35,7 +35,7 @@ fi
 (cd "$PKGDIR" && go build ./... ) >> "$R" 2>&1; rc_build=$?
 echo "rc_apply=$rc_apply rc_build=$rc_build" >> "$R"
 echo "== demo with the change" >> "$R"
-(cd "$PKGDIR" && go test -vet=off -count=1 -run "$DEMO_RUN" . ) > "$OUT/demo_with_change.log" 2>&1; rc_mut=$?
+(cd "$PKGDIR" && go test $SEED_TESTFLAGS -vet=off -count=1 -run "$DEMO_RUN" . ) > "$OUT/demo_with_change.log" 2>&1; rc_mut=$?
 tail -15 "$OUT/demo_with_change.log" >> "$R"
 echo "rc=$rc_mut" >> "$R"
 echo "== existing suite with the change (demo excluded)" >> "$R"
